@@ -128,13 +128,18 @@ class Undecided(Exception):
 
 # --------------------------------------------------------------------------------------
 # Verus units
-def canary_text(text, fn_name):
-    """Append `false` to the ensures of the function under contract: must then FAIL."""
-    rx = re.compile(r"(fn\s+%s\b[^{;]*?\n\s*ensures\n)" % re.escape(fn_name), re.S)
-    m = rx.search(text)
-    if not m:
-        return None
-    return text[:m.end()] + "        false,\n" + text[m.end():]
+def canary_text(text, fn_names):
+    """Prepend `false` to the ensures of each named function: every one must then FAIL
+    (a contradictory requires / assumption would let it pass)."""
+    if isinstance(fn_names, str):
+        fn_names = [fn_names]
+    for fn_name in fn_names:
+        rx = re.compile(r"(fn\s+%s\b[^{;]*?\bensures\b)" % re.escape(fn_name), re.S)
+        m = rx.search(text)
+        if not m:
+            return None
+        text = text[:m.end()] + " false, " + text[m.end():]
+    return text
 
 
 def run_verus_file(path, timeout=300):
@@ -240,18 +245,23 @@ def run_verus_unit(unit, repo, want_canary=True):
         res["reason"] = fails[0]["text"] if fails else "unknown"
     # vacuity canary: contract with `false` appended must fail
     if status == "ok" and want_canary and unit.get("canary"):
-        ctext = canary_text(text, unit["canary"])
-        if ctext is None:
-            res["canary"] = "not-applicable"
-        else:
-            cpath = path[:-3] + "_canary.rs"
+        names = unit["canary"] if isinstance(unit["canary"], list) else [unit["canary"]]
+        bad = []
+        for n in names:   # one at a time: a canary'd lemma would poison its callers
+            ctext = canary_text(text, n)
+            if ctext is None:
+                bad.append("%s(no ensures found)" % n)
+                continue
+            cpath = path[:-3] + "_canary_%s.rs" % n
             open(cpath, "w").write(ctext)
-            cinfo = run_verus_file(cpath)
-            cst, _, cf_, _, _ = classify_verus(cinfo)
-            res["canary"] = "fails-as-required" if cst == "logical" else "VACUOUS(%s)" % cst
-            if cst != "logical":
-                res["status"] = "undecided"
-                res["reason"] = "vacuity canary: `ensures false` was accepted or undecided (%s)" % cst
+            cst, _, cfails, _, _ = classify_verus(run_verus_file(cpath))
+            failed_fns = set(fn_at_line(ctext, f["line"]) for f in cfails) if cst == "logical" else set()
+            if cst != "logical" or n not in failed_fns:
+                bad.append("%s(%s)" % (n, cst))
+        res["canary"] = "fails-as-required x%d" % len(names) if not bad else "VACUOUS %s" % bad
+        if bad:
+            res["status"] = "undecided"
+            res["reason"] = "vacuity canary: `ensures false` accepted or undecided for %s" % bad
     return res
 
 
